@@ -123,6 +123,24 @@ func runOne(j job) (res result, trace string) {
 		}
 		return v
 	})
+	vm.Set("reenterq", func(call goja.FunctionCall) goja.Value {
+		// re-entrant RunProgram whose error the native swallows (a catchable script exception only: uncatchable conditions travel on)
+		_, err := vm.RunString(call.Argument(0).String())
+		if err != nil {
+			if _, ok := err.(*goja.Exception); ok {
+				return vm.ToValue("err")
+			}
+			panic(err)
+		}
+		return vm.ToValue("ok")
+	})
+	vm.Set("expect", func(call goja.FunctionCall) goja.Value {
+		// a scenario's own assertion about the frame it runs in
+		if !call.Argument(0).ToBoolean() {
+			res.Panic = "scenario assertion failed: " + call.Argument(1).String()
+		}
+		return goja.Undefined()
+	})
 	vm.Set("callfn", func(call goja.FunctionCall) goja.Value {
 		// Go -> JS call through the public Callable API from inside a native function
 		f, _ := goja.AssertFunction(call.Argument(0))
